@@ -44,6 +44,7 @@ pub struct Req {
     pub tamper: bool,
     pub tcp: bool,
     pub edns: bool,
+    /// 6 TXT at a QNAME of 255 octets under the wildcard | 7 A at a QNAME of 250 octets that does not exist |
     /// 0 A www | 1 NXDOMAIN | 2 REFUSED | 3 MX | 4 big TXT (truncated over UDP: the TSIG RR must survive) | 5 ANY at the apex (truncated over UDP after name-bearing RRsets were written)
     pub question: u8,
     pub upper_key_name: bool,
@@ -62,6 +63,23 @@ pub struct Scn {
     pub reqs: Vec<Req>,
 }
 pub struct C10;
+
+/// A name of exactly `total` octets on the wire that ends in `suffix` (an absolute name), made of
+/// labels of `ch`.
+fn long_name(total: usize, suffix: &str, ch: char) -> String {
+    let suffix_wire = if suffix == "." { 1 } else { suffix.len() + 1 };
+    let mut need = total.saturating_sub(suffix_wire);
+    let mut labels = vec![];
+    while need >= 2 {
+        let mut take = need.min(64);
+        if need - take == 1 {
+            take -= 1;
+        }
+        labels.push(ch.to_string().repeat(take - 1));
+        need -= take;
+    }
+    format!("{}.{}", labels.join("."), if suffix == "." { "" } else { suffix })
+}
 
 fn gen_skew(r: &mut SplitMix, fudge: u16) -> i64 {
     let f = fudge as i64;
@@ -94,7 +112,13 @@ impl Prop for C10 {
         let nk = range(r, 1, 4) as usize;
         let keys = (0..nk)
             .map(|i| Key {
-                name: format!("{}{}.{}", pick(r, &["key", "k", "transfer", "Host"]), i, pick(r, &["example.", "keys.test.", "", "elsewhere.", "sub.example.", "mail.example."])).replace("..", "."),
+                name: if chance(r, 12) {
+                    // a key name of up to 255 octets on the wire: together with a long QNAME the
+                    // TSIG RR no longer fits a 512-octet response
+                    long_name(*pick(r, &[200usize, 240, 254, 255]), *pick(r, &["example.", "keys.test.", "."]), (b'k' + i as u8) as char)
+                } else {
+                    format!("{}{}.{}", pick(r, &["key", "k", "transfer", "Host"]), i, pick(r, &["example.", "keys.test.", "", "elsewhere.", "sub.example.", "mail.example."])).replace("..", ".")
+                },
                 sha256: chance(r, 50),
                 secret_hex: crate::util::hex(&(0..*pick(r, &[1usize, 16, 20, 32, 64, 100])).map(|_| r.next() as u8).collect::<Vec<u8>>()),
             })
@@ -128,7 +152,7 @@ impl Prop for C10 {
                     tamper: chance(r, 10),
                     tcp: chance(r, 30),
                     edns: chance(r, 30),
-                    question: r.below(6) as u8,
+                    question: if chance(r, 15) { 6 + r.below(2) as u8 } else { r.below(6) as u8 },
                     upper_key_name: chance(r, 20),
                     forwarded: chance(r, 15),
                     extra_additional: chance(r, 8),
@@ -195,7 +219,7 @@ impl Prop for C10 {
         h
     }
     fn rule() -> String {
-        "one execution = a server with 1-4 TSIG keys (HMAC-SHA1/SHA256, random names and secrets of 1-100 octets) receiving 1-6 requests signed by an independent RFC 8945 implementation: client clock skew (0, +-fudge, +-(fudge+1), up to +-70000 s, multiples of 2^32 s), server wall-clock steps forwards/backwards between requests (incl. close to 2^39 s), fudge {0,1,300,65535}, MAC truncation {full, half, 10, 9, half-1, full+1}, tampered octet, wrong secret, unknown key, key with the other algorithm, unknown algorithm name, UDP/TCP, with/without EDNS, key names differing in case or sharing a suffix with names in the zone's RDATA (compression of the TSIG owner), answers truncated over UDP before and after name-bearing RRsets were written, requests relayed by a forwarder (header ID differs from the TSIG original ID), requests with an unrelated record in the additional section before OPT/TSIG. Non-trivial = at least one request is not a plain valid one; distinct = distinct scenario".into()
+        "one execution = a server with 1-4 TSIG keys (HMAC-SHA1/SHA256, random names and secrets of 1-100 octets) receiving 1-6 requests signed by an independent RFC 8945 implementation: client clock skew (0, +-fudge, +-(fudge+1), up to +-70000 s, multiples of 2^32 s), server wall-clock steps forwards/backwards between requests (incl. close to 2^39 s), fudge {0,1,300,65535}, MAC truncation {full, half, 10, 9, half-1, full+1}, tampered octet, wrong secret, unknown key, key with the other algorithm, unknown algorithm name, UDP/TCP, with/without EDNS, key names of up to 255 octets and QNAMEs of 250/255 octets (over UDP without EDNS the TSIG RR then cannot fit: the one legitimate TSIG-less response, empty with TC set), key names differing in case or sharing a suffix with names in the zone's RDATA (compression of the TSIG owner), answers truncated over UDP before and after name-bearing RRsets were written, requests relayed by a forwarder (header ID differs from the TSIG original ID), requests with an unrelated record in the additional section before OPT/TSIG. Non-trivial = at least one request is not a plain valid one; distinct = distinct scenario".into()
     }
     fn assumptions() -> Vec<String> {
         vec![
@@ -215,7 +239,7 @@ impl Prop for C10 {
         "E3 simrt-sequential"
     }
     fn expected_probes() -> Vec<&'static str> {
-        vec!["c10_ok", "c10_badsig", "c10_badkey", "c10_badtime", "c10_formerr_mac_size", "c10_window_edge_accepted", "c10_window_edge_rejected", "c10_truncated_mac_accepted", "c10_truncated_signed_response", "c10_forwarded_request", "c10_extra_additional_record"]
+        vec!["c10_ok", "c10_badsig", "c10_badkey", "c10_badtime", "c10_formerr_mac_size", "c10_window_edge_accepted", "c10_window_edge_rejected", "c10_truncated_mac_accepted", "c10_truncated_signed_response", "c10_forwarded_request", "c10_extra_additional_record", "c10_tsig_rr_cannot_fit"]
     }
 }
 
@@ -256,7 +280,15 @@ fn run(scn: &Scn) {
             3 => (alg, wire::name("hmac-sha512-unknown.")),
             _ => (alg, alg.name()),
         };
-        let mut key_name = if q.signer == 1 { format!("nosuch-{}", key.name) } else { key.name.clone() };
+        let wire_len = |n: &wire::Name| n.iter().map(|l| 1 + l.len()).sum::<usize>() + 1;
+        let alg_wire = wire_len(&alg_name);
+        let mut key_name = if q.signer != 1 {
+            key.name.clone()
+        } else if key.name.len() > 100 {
+            format!("z{}", &key.name[1..])
+        } else {
+            format!("nosuch-{}", key.name)
+        };
         if q.upper_key_name {
             key_name = key_name.to_ascii_uppercase();
         }
@@ -274,7 +306,11 @@ fn run(scn: &Scn) {
             4 => Some(half - 1),
             _ => Some(full + 1),
         };
+        let long_wild = long_name(255, "wild.example.", 'q');
+        let long_nx = long_name(250, "example.", 'n');
         let (qn, qt) = match q.question {
+            6 => (long_wild.as_str(), wire::T_TXT),
+            7 => (long_nx.as_str(), wire::T_A),
             0 => ("www.example.", wire::T_A),
             1 => ("nosuch.example.", wire::T_A),
             2 => ("www.elsewhere.", wire::T_A),
@@ -341,6 +377,34 @@ fn run(scn: &Scn) {
         let tsig = m.tsig().and_then(|r| tsigref::parse_rdata(&r.rdata));
         let detail = |what: &str| format!("request {i} ({q:?}; server now {server_now}, time signed {t_signed}): expected {expect}: {what}; got rcode {} tsig {:?}", m.rcode(), tsig.as_ref().map(|t| (t.error, t.mac.len(), t.time, t.other.clone())));
         let no_data = m.answers.is_empty() && m.authority.is_empty();
+        // --- the one response without a TSIG RR that is legitimate ------------------------
+        // Over UDP a TSIG RR with long key (and algorithm) names after a long question can exceed
+        // the response size limit. Then no TSIG-bearing response exists at all; the server sends
+        // an empty response with TC set (the client retries over TCP). This is judged for every
+        // expectation alike: never any data, and only when the RR can really not fit.
+        if tsig.is_none() {
+            let limit = match (q.tcp, q.edns) {
+                (true, _) => 65535usize,
+                (false, true) => 1232,
+                (false, false) => 512,
+            };
+            let qlen = wire_len(&wire::name(qn)) + 4;
+            let key_wire = wire_len(&wire::name(&key_name));
+            let fixed = 12 + qlen + if q.edns { 11 } else { 0 };
+            // the largest TSIG RR this exchange can need (uncompressed owner, full MAC, BADTIME other data)
+            let certainly_fits = fixed + key_wire + 10 + alg_wire + 16 + full + 6 <= limit;
+            let empty = no_data && m.additional.iter().all(|rr| rr.rtype == wire::T_OPT);
+            if certainly_fits {
+                viol(if expect == "ok" { "valid-request-unsigned-response" } else { "response-without-tsig-although-it-fits" }, detail("no TSIG RR in the response, although question and TSIG RR fit the size limit"));
+                break;
+            }
+            if !(m.tc() && empty) {
+                viol("tsig-does-not-fit-but-response-carries-data-or-no-tc", detail("a response that cannot carry its TSIG RR must be empty with TC set"));
+                break;
+            }
+            simrt::probe("c10_tsig_rr_cannot_fit");
+            continue;
+        }
         match expect {
             "ok" => {
                 simrt::probe("c10_ok");
